@@ -174,6 +174,8 @@ def render_call(call):
     def arg(v, i):
         if isinstance(v, dict) and v.get('skip'):
             return ''
+        if isinstance(v, dict) and 'raw' in v:
+            return v['raw']
         if isinstance(v, dict) and 'lit' in v:
             x = v['lit']
             if x is None:
